@@ -138,3 +138,24 @@ package base
 //@   requires fm != nil && fm.queue != nil && fm.elements != nil
 //@   modifies *
 //@   assert evicts_current_entry: at FileEntry.Delete#0 :: ne == e
+
+// ---- the file operation layer (C11): every lookup, creation and deletion of a named file goes
+// through an entry built by the factory (which validates the name, contracts above). The helpers
+// themselves never go to the file system with a path of their own making: no direct call of
+// package os / io/ioutil / path/filepath that takes a path (reads included).
+//@ func localFileOp.reloadFileEntryHelper
+//@   rules_only
+//@   modifies *
+//@   fs_access none
+//@ func localFileOp.lockHelper
+//@   rules_only
+//@   modifies *
+//@   fs_access none
+//@ func localFileOp.deleteHelper
+//@   rules_only
+//@   modifies *
+//@   fs_access none
+//@ func localFileOp.createFileHelper
+//@   rules_only
+//@   modifies *
+//@   fs_access none
